@@ -1188,7 +1188,7 @@ def finish_reports(ck, T, binname):
 
 
 def run(ck):
-    n = 420 if ck.quick() else 2500
+    n = 420 if ck.quick() else 2000
     run_translators(ck)
     # one obligation per explicit arm of analyze_order, named after the operator: an arm the source
     # gains (or whose lemma is gone) is an undischarged obligation
